@@ -452,5 +452,5 @@ def targets(ctx):
         Target("oneof_histories", ev, strategy=strat, quick=250, thorough=3000, time_quick=80),
         Target("oneof_histories_variants", ev, strategy=variant_strat(), quick=200, thorough=3000, time_quick=80),
         Target("oneof_state_machine", ev, stateful=stateful, quick=40, thorough=400),
-        *__import__("vf.props._thr", fromlist=["target"]).target(ctx, ['oneof_history', 'bytes:Solo']),
+        *__import__("vf.props._thr", fromlist=["target"]).target(ctx, ['tiny_oneof', 'oneof_history', 'tiny_parse']),
     ]
